@@ -374,6 +374,42 @@ func (r *Run) Finish() int {
 	if len(samples) == 0 {
 		cov["samples"] = []interface{}{"(no sample recorded)"}
 	}
+	// stages of the same check that ran in another binary (overlay harness) hand their evidence over
+	if ms := os.Getenv("VERIF_MERGE_EVIDENCE"); ms != "" {
+		stages := map[string]interface{}{}
+		for _, p := range strings.Split(ms, ",") {
+			b, err := os.ReadFile(p)
+			if err != nil {
+				fmt.Fprintf(os.Stderr, "HARNESS-ERROR: stage evidence %s missing: %v\n", p, err)
+				return 2
+			}
+			var st map[string]interface{}
+			if err := json.Unmarshal(b, &st); err != nil {
+				fmt.Fprintf(os.Stderr, "HARNESS-ERROR: stage evidence %s unreadable: %v\n", p, err)
+				return 2
+			}
+			sc, _ := st["coverage"].(map[string]interface{})
+			num := func(k string) int64 {
+				f, _ := sc[k].(float64)
+				return int64(f)
+			}
+			evals += num("evaluations")
+			states += num("states")
+			trans += num("transitions")
+			distinct += num("distinct_nontrivial")
+			if ex, ok := sc["exhaustive"].(bool); ok && !ex {
+				exhaustive = false
+			}
+			if v, ok := st["violations"].(float64); ok {
+				newViol += int(v)
+			}
+			stages[filepath.Base(p)] = sc
+		}
+		cov["evaluations"], cov["states"], cov["transitions"], cov["distinct_nontrivial"] = evals, states, trans, distinct
+		cov["traces_validated_against_impl"] = evals
+		cov["exhaustive"] = exhaustive
+		cov["stages"] = stages
+	}
 	seed := 0
 	if s, err := strconv.Atoi(os.Getenv("VERIF_SEED")); err == nil {
 		seed = s
